@@ -174,6 +174,17 @@ var c14Specials = []c14Special{
 		Host:   "package c14mod\n\nimport (\n\t\"example.com/c14mod/util\"\n\t\"github.com/c14other/dep\"\n\t\"golang.org/x/c14third/z\"\n)\n\nfunc c14use() {\n\tutil.Do()\n\tdep.Do()\n\tz.Do()\n}\n\nfunc c14more(n int) int {\n\tn++\n\treturn n\n}\n",
 	},
 	{
+		// A three-clause for header with only its condition elided: only a
+		// loop with that very init and post statement can be an instance.
+		// The plants are loops of other shapes with the same body.
+		Label: "for-cond-elided",
+		Text:  "@@\nvar x expression\n@@\n for c14i := 0; ...; c14i++ {\n-  c14n = c14n + x\n+  c14n += x\n }\n",
+		Plants: []string{
+			"for _, c14v := range c14xs {\n\tc14n = c14n + c14v\n}", "for c14n < 10 {\n\tc14n = c14n + 1\n}", "for {\n\tc14n = c14n + 2\n\tbreak\n}",
+			"for c14j := 9; c14j > 0; c14j-- {\n\tc14n = c14n + c14j\n}",
+		},
+	},
+	{
 		// An argument is dropped; in the file it may hold a comment, on the
 		// same line as the rest of the call or on one of its own.
 		Label: "drop-arg",
